@@ -629,6 +629,8 @@ BUILTIN_METHODS = {
     'iter', 'into_iter', 'contains', 'push', 'pop', 'last', 'clear', 'len', 'is_empty', 'next', 'expect', 'unwrap',
     'is_none', 'is_some', 'clone', 'as_ref', 'position', 'find', 'any', 'take', 'for_each',
     'by_ref', 'copied', 'cloned', 'collect', 'all', 'is_some_and', 'to_vec',
+    'unwrap_or_else', 'unwrap_or', 'map_or', 'and_then', 'or_else', 'get', 'first', 'rev', 'enumerate', 'zip', 'skip', 'count', 'extend',
+    'truncate', 'is_some_or', 'is_none_or', 'ok_or', 'insert', 'remove', 'swap', 'starts_with', 'ends_with', 'min', 'max',
 }
 
 PY_KEYWORDS = {'from', 'not', 'in', 'is', 'lambda', 'def', 'class', 'pass', 'None', 'True', 'False', 'and', 'or', 'global', 'with', 'as', 'del', 'try', 'except', 'raise', 'yield', 'assert', 'import', 'print', 'id', 'len', 'iter', 'next', 'list', 'vars', 'type', 'min', 'max', 'sum', 'range'}
@@ -1147,6 +1149,8 @@ class Emitter:
                 return r
             if m in BUILTIN_METHODS:
                 return f'rs_{m}({", ".join([r] + a)})'
+            if m not in {name for (_, name) in self.methods}:
+                raise Unsupported(f'line {e[-1]}: method .{m}() is neither defined in lib.rs nor modelled in vf/rsrt.py')
             return f'{r}.{pyname(m)}({", ".join(a)})'
         if k == 'structlit':
             path, fs = e[1], e[2]
